@@ -22,7 +22,8 @@ from koala.lattice import Lattice, LatticeException
 DRIVERS = ("c16",)
 MODEL_TARGETS = ["Model/Clip.vo", "Model/Plot.vo"]
 TARGETS = ["Proofs/ClipFacts.vo", "Proofs/PlotFacts.vo", "Proofs/VisFacts.vo", "Proofs/CoverFacts.vo", "Proofs/PlaqFacts.vo",
-           "Proofs/PolyAreaFacts.vo", "Proofs/PolyCellFacts.vo", "Proofs/PolyRegionFacts.vo", "Proofs/PlaqCoverFacts.vo"]
+           "Proofs/PolyAreaFacts.vo", "Proofs/PolyCellFacts.vo", "Proofs/PolyRegionFacts.vo", "Proofs/PlaqCoverFacts.vo",
+           "Proofs/PolyStrictFacts.vo", "Proofs/PolyExactFacts.vo", "Proofs/PlaqPointFacts.vo"]
 LEVEL = "proof"
 TRUST = [
     "hand-written Gallina model coq/Model/Plot.v of plotting.py (_process_plot_args, _broadcast_args, plot_vertices/edges/plaquettes replication rules, "
